@@ -210,6 +210,11 @@ def l3(prog, rep):
     exhaustive_loops(rep, "L3", body, r"get_block_fees\(self\.state\)", 1, "FEE-OUT: the block's fee map",
                      "fees of the remaining assets were debited from payers but are never "
                      "credited to the fee recipient", ok_only=True)
+    # IBC-OUT: when the sequencer is the source zone is decided by `is_source`; its truth table
+    # must be TracePrefixed && !(leading port && leading channel) (rule shared with C18-I2): a
+    # wrong table burns what should be escrowed - value leaves the ledger
+    import c18
+    c18.is_source_table(prog, rep, rule="L3")
     # IBC-OUT
     o = CA + "ics20_withdrawal::CheckedIcs20Withdrawal::execute"
     body = prog.main_body(o)
